@@ -550,6 +550,13 @@ def _delimited(e):
         s = str(e.func.value.value).strip()
         return s.endswith(')') and (s.startswith('(') or re.match(r'^[\w{}.]+\(', s) is not None)
     if isinstance(e, ast.Call) and isinstance(e.func, ast.Attribute) and e.func.attr == 'join':
+        # ''.join(('(', <chain>, ')')): a concatenation spelled as a join of literal pieces
+        if isinstance(e.func.value, ast.Constant) and e.func.value.value == '' and len(e.args) == 1 and isinstance(e.args[0], (ast.Tuple, ast.List)) \
+                and e.args[0].elts:
+            first, last = e.args[0].elts[0], e.args[0].elts[-1]
+            if isinstance(first, ast.Constant) and isinstance(first.value, str) and isinstance(last, ast.Constant) and isinstance(last.value, str):
+                return first.value.lstrip().startswith('(') and last.value.rstrip().endswith(')')
+            return None
         return False            # a bare infix chain
     if isinstance(e, ast.Name):
         return None
